@@ -893,7 +893,13 @@ func main() {
 	debug.SetMemoryLimit(math.MaxInt64) // vlib sets GOMEMLIMIT=8GiB, which would bring the collector back
 	hxnode.BootLight("dev")
 	n := newNode()
-	r := hx.NewRng(hx.SeedFromEnv())
+	seedOff := uint64(0)
+	if p := strings.Split(a["part"], "/"); len(p) == 2 {
+		if i, err := strconv.Atoi(p[0]); err == nil {
+			seedOff = uint64(i) * 1000003 // each part of a thorough run draws different random sequences
+		}
+	}
+	r := hx.NewRng(hx.SeedFromEnv() + seedOff)
 
 	if mode == "replay" {
 		for _, l := range readLines(a["file"]) {
